@@ -111,6 +111,16 @@ let () =
         print_endline (presult_str (parse_config (strict = "1") (schema_of sch) (unhex c)))
       | "NP" :: strict :: sch :: c :: _ ->
         print_endline (if nparse_config (strict = "1") (parse_nested sch) (unhex c) then "accept" else "reject")
+      | "KS" :: calls :: _ ->
+        (* successive key_lookup calls on one parser object: conf:key:savepos|conf:key:savepos|... *)
+        let cl = List.map (fun c -> match String.split_on_char ':' c with
+            | [cf; k; sp] -> ((unhex cf, unhex k), nat_of_int (int_of_string sp)) | _ -> failwith "KS") (String.split_on_char '|' calls) in
+        let (_, rs) = lookup_seq mempty cl in
+        print_endline (String.concat ";" (List.map (function
+            | KL_notfound -> "notfound"
+            | KL_error sp -> Printf.sprintf "error %d" (int_of_nat sp)
+            | KL_found (_, data, sp, reg) -> Printf.sprintf "found %s %d %s" (hex data) (int_of_nat sp) (reg_str reg)
+            | KL_outoffuel -> "outoffuel") rs))
       | "PS" :: strict :: sch :: cs :: _ ->
         (* one parser object, several texts, no clear in between *)
         let confs = List.map unhex (String.split_on_char '|' cs) in
